@@ -1,8 +1,12 @@
+\* Quick tier: binary tables.  In linear mode the interpolant is LINEAR in the table entries with weights that depend on
+\* the query only, so the clauses hold for every table iff the weights outside the bracketing nodes vanish (one-hot
+\* tables), the bracketing weights are non-negative (one-hot) and sum to one (constant table): all of them are among the
+\* 2^9 binary tables.  The thorough tier enumerates three-valued tables ({0,1,3}, unequal node spacing) as well.
 SPECIFICATION Spec
 CONSTANTS
   TNS = {300,500,700}
   PNS = {0,2,4}
-  Vals = {0,1,2}
+  Vals = {0,2}
   TabMode = "all"
   Mode = "linear"
   QX = {100,200,300,400,500,600,700,800}
@@ -12,6 +16,7 @@ CONSTANTS
 INVARIANT NonNegative
 INVARIANT BracketBounded
 INVARIANT NodeExact
+INVARIANT BilinearOrderIrrelevant
 INVARIANT NeverExtrapolated
 INVARIANT ZeroBelowBothMinima
 INVARIANT FitsInv
